@@ -18,64 +18,18 @@
  */
 #include "vx.h"
 
-#include "list.c"
-#include "messageq.c"
-#include "fibre.c"
-#include "util.c"
+/* the library is linked as objects of its own (lib= in bin/checks.d/C01.py): list.c, messageq.c, util.c and
+ * harness/sched_shim.c, which is fibre.c plus accessors to its private state */
+#include <librfn/atomic.h>
+#include <librfn/util.h>
+#include <librfn/list.h>
+#include <librfn/messageq.h>
+#include <librfn/fibre.h>
+#include <librfn/protothreads.h>
+list_t *sc_shim_runq(void); list_t *sc_shim_timerq(void); fibre_t *sc_shim_current(void); int sc_shim_state(void); uint32_t sc_shim_now(void);
+messageq_t *sc_shim_atomic_runq(void); fibre_t **sc_shim_aqbuf(void); unsigned sc_shim_aqlen(void);
 
 uint32_t time_now(void) { return 0; }	/* util.c's ratelimit helper wants it; never called here */
-
-/* This file shares a translation unit with the library sources above (it needs fibre.c's statics). Its own
- * file-scope identifiers are renamed so that a helper or static the library may grow (body, setup, probe, ...) can
- * never collide with them. */
-#define Mo sc_Mo
-#define NF sc_NF
-#define acts sc_acts
-#define allow2 sc_allow2
-#define aq_limit sc_aq_limit
-#define base sc_base
-#define body sc_body
-#define build_configs sc_build_configs
-#define canon_list sc_canon_list
-#define cfgname sc_cfgname
-#define configs sc_configs
-#define cur_t32 sc_cur_t32
-#define curcfg sc_curcfg
-#define decode_next sc_decode_next
-#define deltas sc_deltas
-#define describe_action sc_describe_action
-#define dispatch_owner sc_dispatch_owner
-#define diverge sc_diverge
-#define do_action_impl sc_do_action_impl
-#define do_next sc_do_next
-#define dts sc_dts
-#define enabled_wrap sc_enabled_wrap
-#define encode_next sc_encode_next
-#define fibres sc_fibres
-#define fidx sc_fidx
-#define foreign_divergences sc_foreign_divergences
-#define m_del sc_m_del
-#define m_drain sc_m_drain
-#define m_in sc_m_in
-#define m_kill sc_m_kill
-#define m_run sc_m_run
-#define m_run1 sc_m_run1
-#define m_timeout sc_m_timeout
-#define model_action sc_model_action
-#define n_ops_kind sc_n_ops_kind
-#define nidx sc_nidx
-#define nops_total sc_nops_total
-#define op_apply sc_op_apply
-#define op_canon sc_op_canon
-#define op_describe sc_op_describe
-#define op_enabled sc_op_enabled
-#define probe sc_probe
-#define probe_depth sc_probe_depth
-#define probe_dt_all sc_probe_dt_all
-#define retname sc_retname
-#define setup sc_setup
-#define st_load sc_st_load
-#define st_save sc_st_save
 
 #ifndef PROP
 #error "compile with -DPROP=1, 2 or 3"
@@ -85,7 +39,7 @@ uint32_t time_now(void) { return 0; }	/* util.c's ratelimit helper wants it; nev
 #define OWN_C03 4
 #define MY_OWN (1 << (PROP - 1))
 
-#define MAXF 4
+#define MAXF 6
 #define MAXAQ 16
 
 /* ---------------------------------------------------------------- the model */
@@ -251,7 +205,7 @@ static int op_enabled(int op)
 		      (Mo.ntq > 0 && Mo.due[Mo.tq[0]] <= Mo.now + (int64_t)dts[dti]);
 	if (!willrun) return a1 == 0 && a2 == 0 && ret == PT_WAITING;
 	/* scope: at most one unsatisfied fibre_timeout per dispatch */
-	if (acts[a1].kind == A_TMO && acts[a2].kind == A_TMO && deltas[acts[a1].arg] > 0) { return 0; }
+	if (acts[a1].kind == A_TMO && acts[a2].kind == A_TMO && deltas[acts[a1].arg] > 0 && deltas[acts[a2].arg] > 0) { return 0; }
 	/* scope: at most 8 undrained run_atomic requests (we stay at or below aq_limit) */
 	int na = (acts[a1].kind == A_RUNA) + (acts[a2].kind == A_RUNA);
 	if (na && na > aq_limit) return 0;	/* requests made inside a dispatch start from a drained queue */
@@ -414,22 +368,19 @@ out:
 
 /* ------------------------------------------------------- state save / restore */
 
+/* the scheduler's own state is part of the library image that vx_bfs_run saves and restores with every state */
 typedef struct {
-	typeof(kernel) k;
-	fibre_t *abuf[8];
 	fibre_t f[MAXF];
 	model_t m;
 } snap_t;
 static void st_save(void *dst)
 {
 	snap_t *s = dst;
-	memcpy(&s->k, &kernel, sizeof(kernel)); memcpy(s->abuf, atomic_runq_buf, sizeof(s->abuf));
 	memcpy(s->f, fibres, sizeof(s->f)); s->m = Mo;
 }
 static void st_load(const void *src)
 {
 	const snap_t *s = src;
-	memcpy(&kernel, &s->k, sizeof(kernel)); memcpy(atomic_runq_buf, s->abuf, sizeof(s->abuf));
 	memcpy(fibres, s->f, sizeof(s->f)); Mo = s->m;
 }
 
@@ -438,20 +389,20 @@ static void canon_list(vx_hasher *h, list_t *l, int timed)
 	int i = 0;
 	for (list_node_t *n = l->head; n && i <= MAXF; n = n->next, i++) {
 		vx_h_u64(h, (uint64_t)(nidx(n) + 8));
-		if (timed) vx_h_u64(h, (uint64_t)(int64_t)(int32_t)(containerof(n, fibre_t, link)->duetime - kernel.now));
+		if (timed) vx_h_u64(h, (uint64_t)(int64_t)(int32_t)(containerof(n, fibre_t, link)->duetime - sc_shim_now()));
 	}
 	vx_h_u64(h, 0xee);
 	vx_h_u64(h, (uint64_t)(nidx(l->tail) + 8));	/* stale when the list is empty - kept, it is implementation state */
 }
 static void op_canon(vx_hasher *h)
 {
-	canon_list(h, &kernel.runq, 0);
-	canon_list(h, &kernel.timerq, 1);
-	vx_h_u64(h, (uint64_t)(fidx(kernel.current) + 8)); vx_h_u64(h, (uint64_t)kernel.state);
-	messageq_t *q = &kernel.atomic_runq;
+	canon_list(h, sc_shim_runq(), 0);
+	canon_list(h, sc_shim_timerq(), 1);
+	vx_h_u64(h, (uint64_t)(fidx(sc_shim_current()) + 8)); vx_h_u64(h, (uint64_t)sc_shim_state());
+	messageq_t *q = sc_shim_atomic_runq();
 	unsigned ff = atomic_load(&q->full_flags);
 	vx_h_u64(h, atomic_load(&q->num_free)); vx_h_u64(h, atomic_load(&q->sendp)); vx_h_u64(h, q->receivep); vx_h_u64(h, ff);
-	for (int i = 0; i < 8; i++) if (ff & (1u << i)) vx_h_u64(h, (uint64_t)(fidx(atomic_runq_buf[i]) + 8));
+	for (unsigned i = 0; i < sc_shim_aqlen() && i < 32; i++) if (ff & (1u << i)) vx_h_u64(h, (uint64_t)(fidx(sc_shim_aqbuf()[i]) + 8));
 	for (int i = 0; i < NF; i++) { vx_h_u64(h, fibres[i].priv); vx_h_u64(h, (uint64_t)(nidx(fibres[i].link.next) + 8)); }
 	/* model */
 	vx_h_bytes(h, Mo.runq, sizeof(Mo.runq)); vx_h_u64(h, (uint64_t)Mo.nrun);
@@ -474,6 +425,7 @@ typedef struct {
 	int ndt; uint32_t dts[8];
 	int allow2;
 	int with_runa;			/* run_atomic in the alphabet (external and inside scripts) */
+	int sleepers;			/* start state: this many fibres already asleep, all due one tick later, registered f0, f1, ... */
 	int with_kill;
 	int depth_quick, depth_thorough;
 } config_t;
@@ -518,7 +470,7 @@ static void build_configs(void)
 		memset(&c, 0, sizeof(c));
 		static char names[40][48]; snprintf(names[i], 48, "c02-n3-base%08x", bases[i]);
 		c.name = names[i]; c.nf = 3; c.base = bases[i]; c.aq_limit = 0;
-		c.ndelta = 6; c.deltas[0] = -1; c.deltas[1] = 0; c.deltas[2] = 1; c.deltas[3] = 2; c.deltas[4] = 3; c.deltas[5] = 0x7fffff00;
+		c.ndelta = 7; c.deltas[0] = -1; c.deltas[1] = 0; c.deltas[2] = 1; c.deltas[3] = 2; c.deltas[4] = 3; c.deltas[5] = 0x7fffff00; c.deltas[6] = 0x7fffffff;	/* the scope's limit: within 2^31 ticks */
 		c.ndt = 5; c.dts[0] = 0; c.dts[1] = 1; c.dts[2] = 2; c.dts[3] = 5; c.dts[4] = 0x7ffffff0;
 		c.allow2 = 1; c.with_runa = 0; c.with_kill = 1;
 		c.depth_quick = 3; c.depth_thorough = 4;
@@ -534,6 +486,29 @@ static void build_configs(void)
 		c.ndt = 4; c.dts[0] = 0; c.dts[1] = 1; c.dts[2] = 2; c.dts[3] = 0x7ffffff0;
 		c.allow2 = 0; c.with_runa = 0; c.with_kill = 1;
 		c.depth_quick = 5; c.depth_thorough = 7;
+		configs[nconfigs++] = c;
+	}
+	/* "made runnable by any other means" includes fibre_run_atomic: the timer alphabet with interrupt-style requests */
+	static const uint32_t b5[] = { 3, 0xfffffffe, 0x7ffffffe };
+	for (unsigned i = 0; i < lengthof(b5); i++) {
+		memset(&c, 0, sizeof(c));
+		static char names[4][48]; snprintf(names[i], 48, "c02-n3-runa-base%08x", b5[i]);
+		c.name = names[i]; c.nf = 3; c.base = b5[i]; c.aq_limit = 2;
+		c.ndelta = 5; c.deltas[0] = 0; c.deltas[1] = 1; c.deltas[2] = 2; c.deltas[3] = 0x7ffffffe; c.deltas[4] = 0x40000000;
+		c.ndt = 4; c.dts[0] = 0; c.dts[1] = 1; c.dts[2] = 2; c.dts[3] = 0x7ffffff0;
+		c.allow2 = 1; c.with_runa = 1; c.with_kill = 1;
+		c.depth_quick = 3; c.depth_thorough = 4;
+		configs[nconfigs++] = c;
+	}
+	/* many timeouts expiring in one pass ("any number of fibres"): five sleepers due together, a sixth fibre to run */
+	static const uint32_t b6[] = { 10, 0xfffffffe };
+	for (unsigned i = 0; i < lengthof(b6); i++) {
+		memset(&c, 0, sizeof(c));
+		static char names[2][48]; snprintf(names[i], 48, "c02-n6-sleepers5-base%08x", b6[i]);
+		c.name = names[i]; c.nf = 6; c.base = b6[i]; c.aq_limit = 0; c.sleepers = 5;
+		c.ndelta = 1; c.deltas[0] = 1;
+		c.ndt = 2; c.dts[0] = 0; c.dts[1] = 1;
+		c.allow2 = 0; c.with_runa = 0; c.with_kill = 0; c.depth_quick = 4; c.depth_thorough = 5;
 		configs[nconfigs++] = c;
 	}
 	/* four sleepers */
@@ -585,10 +560,9 @@ static int setup(const config_t *c)
 	nops_total = OP_NEXT0 + NDT * NA * NA * 4;
 	probe_dt_all = 0x7ffffff8;
 	for (int i = 0; i < ND; i++) if (deltas[i] > 0x7f000000) probe_dt_all = 0x7ffffff8;
-	/* reset the scheduler: same values as its static initialiser */
-	memset(&kernel, 0, sizeof(kernel));
-	memset(atomic_runq_buf, 0, sizeof(atomic_runq_buf));
-	messageq_init(&kernel.atomic_runq, atomic_runq_buf, sizeof(atomic_runq_buf), sizeof(atomic_runq_buf[0]));
+	/* reset the scheduler to what its own static initialisers give it (the image taken at program start): not to a
+	 * re-initialisation with parameters this harness believes to be the same */
+	vx_lib_reset();
 	for (int i = 0; i < MAXF; i++) fibre_init(&fibres[i], body);
 	memset(&Mo, 0, sizeof(Mo)); Mo.cur = -1; Mo.last_ret = 0;
 	/* Build the start state with checked operations: position the clock with one idle
@@ -605,6 +579,11 @@ static int setup(const config_t *c)
 	}
 	if (c->cursor_adv && !bad) bad = do_next(NDT, 0, 0, PT_WAITING);	/* idle pass: nothing current any more */
 	for (int i = 0; i < c->prefill && !bad; i++) bad = op_apply(NF + i % NF);
+	for (int i = 0; i < c->sleepers && !bad; i++) {	/* run(fi); pass{timeout(now+deltas[0]), wait} - time stands still meanwhile */
+		int tmo = -1; for (int a = 0; a < NA; a++) if (acts[a].kind == A_TMO && acts[a].arg == 0) tmo = a;
+		bad = op_apply(i);
+		if (!bad) bad = do_next(NDT, tmo, 0, PT_WAITING);
+	}
 	aq_limit = save_limit;
 	in_setup = 0;
 	return bad;
@@ -624,7 +603,8 @@ int main(int argc, char **argv)
 	vx_watchdog(2.0);
 	build_configs();
 	vx_bfs b = { .size = sizeof(snap_t), .enabled = enabled_wrap, .apply = op_apply, .canon = op_canon,
-		     .describe = op_describe, .save = st_save, .load = st_load, .on_new = probe };
+		     .describe = op_describe, .save = st_save, .load = st_load, .on_new = probe,
+		     .lib_unhashed = 1 /* op_canon is a time-shift-invariant form of the scheduler state; the raw image (absolute times) is saved with every state but not hashed */ };
 	static snap_t dummy; b.live = &dummy;
 	char *rp = vx_read_replay();
 	if (rp) {
